@@ -6,6 +6,7 @@
 """
 from .. import dyn, reach, configs
 from .. import refmodel as R
+from ..choice import ChoiceRng
 from ..desc import mkstate, sdesc, show
 
 CHAINS = [(n,) for n in dyn.SINGLES] + dyn.SHIPPED_CHAINS + [dyn.CHAIN_FULL]
@@ -26,7 +27,7 @@ def ref_poses(names, s, a):
 def judge(names, s, a):
     """returns (n_executions, nontrivial, message or None, signature)"""
     fn = dyn.chain_fn(names)
-    outs, capped = dyn.outcomes(fn, s, a)
+    outs, capped = dyn.outcomes(fn, s, a, via_copy=len(names) > 1)  # chains through transition_with_copy, singles in place
     want = ref_poses(names, s, a)
     sig = {'action_kind': 'move' if a in R.MOVES else 'turn' if a.startswith('TURN') else 'other'}
     if a in R.MOVES:
@@ -85,6 +86,8 @@ def _target(s, a):
 
 
 def replay(case):
+    if case['kind'] == 'job':
+        return dyn.replay_job(case, _worker)
     from ..desc import tup
 
     if case['kind'] == 'state_law':
@@ -93,6 +96,8 @@ def replay(case):
         return judge(tuple(case['names']), tup(case['s']), case['a'])[2]
     if case['kind'] == 'reach':
         return reach.replay_trace(case, make_hooks)
+    if case['kind'] == 'stateful':
+        return judge_stateful(case['config'], case['seed'])[1]
     raise ValueError(case['kind'])
 
 
@@ -119,6 +124,35 @@ def make_hooks(env, name):
     return on_state, on_edge
 
 
+def judge_stateful(name, seed):
+    """drive the STATEFUL interface (reset/step) of a shipped configuration along shortest paths to every reachable cell
+    and three steps beyond (episodes are not cut at termination: the dynamics keep obeying the kinematics)"""
+    from gym_gridverse.action import Action
+
+    from .. import envs
+    from .c02 import directed_sequences
+
+    data = configs.load(dict(configs.all_configs())[name])
+    names = tuple(t['name'] for t in data['transition_functions'])
+    n = 0
+    for seq in directed_sequences(name, seed):
+        env = envs.slot(name, 'c08', seed)
+        env.reset()
+        k = sdesc(env.state)
+        tail = [a for a in ('MOVE_BACKWARD', 'TURN_LEFT', 'MOVE_FORWARD') if Action[a] in env.action_space.actions]
+        for a in list(seq) + tail:
+            env._rng = ChoiceRng([])
+            env.step(Action[a])
+            k2 = sdesc(env.state)
+            n += 1
+            want = ref_poses(names, k, a)
+            if pose(k2) not in want:
+                return n, (f'{name} seed {seed}: stateful step {a} after {n - 1} steps: pose {pose(k)} -> {pose(k2)}, reference '
+                           f'kinematics allows {sorted(want)}')
+            k = k2
+    return n, None
+
+
 def run(rep, tier, seed):
     plan = dyn.standard_plan(tier, CHAINS, CHAINS_HI, sigma_hi='kin5')
     rep.bounds['chains'] = ['+'.join(c) for c in CHAINS]
@@ -128,12 +162,21 @@ def run(rep, tier, seed):
     else:
         names, init_limit, max_states = [n for n, _ in configs.all_configs()], 3000, 150000
     rs, rt = dyn.run_reach(rep, names, init_limit, max_states, make_hooks, replay, 'kinematics_on_reachable_edges', lineages=4)
+    sn = 0
+    for name in (configs.SMALL if tier == 'quick' else [n for n, _ in configs.all_configs()]):
+        for sd in (seed * 17 + 1, seed * 17 + 2):
+            k, m = judge_stateful(name, sd)
+            sn += k
+            if m:
+                case = {'kind': 'stateful', 'config': name, 'seed': sd, 'sig': {'part': 'stateful', 'config': name}}
+                rep.violation(case, m)
+    rep.part('stateful_paths', steps=sn)
     rep.assume('dynamics compositions limited to the 7 built-in transition functions alone, the 4 shipped chains and '
                'the full 7-chain in the shipped order')
     return rep.finish(
         states=tot['states'] + rs,
-        transitions=tot['exec'] + rt,
-        validated=tot['exec'] + rt,
+        transitions=tot['exec'] + rt + sn,
+        validated=tot['exec'] + rt + sn,
         evaluations=tot['cases'] + rt,
         distinct_nontrivial=tot['nontrivial'],
         rule='universe case = (grid with <=k non-floor cells, pose, held item, function/chain, action), each enumerated '
